@@ -293,17 +293,28 @@ func (p *grpcConnectionPool) newConnection(ctx context.Context, target *route.Ta
 	conn, err := grpc.DialContext(ctx, target.URL.Host, opts...)
 
 	if err == nil {
-		p.Set(target, conn)
+		conn = p.Set(target, conn)
 	}
 
 	return conn, err
 }
 
-func (p *grpcConnectionPool) Set(target *route.Target, conn *grpc.ClientConn) {
+// Set stores conn as the connection for target and returns the connection
+// to use. When a concurrent caller has already stored a usable connection
+// for the same target then conn is closed and the pooled one is returned,
+// so that no connection is left open outside of the pool.
+func (p *grpcConnectionPool) Set(target *route.Target, conn *grpc.ClientConn) *grpc.ClientConn {
 	p.lock.Lock()
 	defer p.lock.Unlock()
 
-	p.connections[makeGRPCTargetKey(target)] = conn
+	key := makeGRPCTargetKey(target)
+	if cur := p.connections[key]; cur != nil && cur != conn && cur.GetState() != connectivity.Shutdown {
+		conn.Close()
+		return cur
+	}
+
+	p.connections[key] = conn
+	return conn
 }
 
 func (p *grpcConnectionPool) cleanup() {
